@@ -33,6 +33,16 @@ func main() {
 		os.Exit(cmdReplay(os.Args[2:]))
 	case "lemmas":
 		os.Exit(cmdLemmas(os.Args[2:]))
+	case "template":
+		// govc template <file.go.txt> [args]: build the program against the working tree in a
+		// scratch module and run it (used by bounded stand-ins and finding replays)
+		if len(os.Args) < 3 {
+			fmt.Fprintln(os.Stderr, "usage: govc template <file> [args]")
+			os.Exit(2)
+		}
+		code, out := runTemplate(envOr("VERIF_REPO", "/repo"), "github.com/ipld/go-ipld-prime", os.Args[2], os.Args[3:])
+		fmt.Print(out)
+		os.Exit(code)
 	default:
 		fmt.Fprintln(os.Stderr, "unknown command", os.Args[1])
 		os.Exit(2)
